@@ -369,6 +369,9 @@ class Interp:
         elif op in ('==', '!=') and ((isinstance(a, PtrLV) and (isinstance(b, Ptr) and b.rec is None or isinstance(b, int) and b == 0)) or
                                      (isinstance(b, PtrLV) and (isinstance(a, Ptr) and a.rec is None or isinstance(a, int) and a == 0))):
             return op == '!='            # the address of a local is not null
+        elif op in ('==', '!=') and ((callable(a) and (isinstance(b, Ptr) and b.rec is None or isinstance(b, int) and b == 0)) or
+                                     (callable(b) and (isinstance(a, Ptr) and a.rec is None or isinstance(a, int) and a == 0))):
+            return op == '!='            # a function the harness supplied is not a null function pointer
         elif isinstance(a, Ptr) and isinstance(b, int) and b == 0 and op in ('==', '!='):
             return (a.rec is None) == (op == '==')
         elif isinstance(b, Ptr) and isinstance(a, int) and a == 0 and op in ('==', '!='):
